@@ -28,10 +28,17 @@ set_option maxRecDepth 100000 in
 theorem fixed_del_var : FallibleAndFails delVar delVarEv := by decide
 
 set_option maxRecDepth 100000 in
-/-- `D_del_typing` (remaining; C19 `D_remove_shift`): after `x = [1, "s", 2]; del(x[0])` the variable is
-    `["s", 2]`, typed `{0: bytes, 2: integer}`; `x[2] + 1` is typed infallible and fails on `null + 1` -/
-theorem witness_del_shift : InfallibleButFails delShiftAdd delShiftAddEv ∧ nanFreeSeq delShiftAdd T0 = true := by
+/-- `D_del_typing` (remaining; C19 `D_minlen_counts_optional`): after `x = [1]; if .a == 1 { x[1] = 2 };
+    del(x[-1])` with `.a ≠ 1` the variable is `[]`, still typed with a required integer at index 0;
+    `x[0] + 1` is typed infallible and fails on `null + 1` -/
+theorem witness_del_neg : InfallibleButFails delNegAdd delNegAddEv ∧ nanFreeSeq delNegAdd T0 = true := by
   decide
+
+set_option maxRecDepth 100000 in
+/-- fixed (`D_del_typing` through C19 `D_remove_shift`; ff94317): after `x = [1, "s", 2]; del(x[0])` the
+    variable is `["s", 2]`; it was typed `{0: bytes, 2: integer}` and `x[2] + 1` infallible. Now `x[2]`
+    is typed `undefined`, the addition fallible (the compiler rejects the program) -/
+theorem fixed_del_shift : FallibleAndFails delShiftAdd delShiftAddEv := by decide
 
 set_option maxRecDepth 100000 in
 /-- `D_short_circuit_defines_var` (`(.a || (x = 1)); x + 1` with `.a = true`); no float arithmetic -/
@@ -67,18 +74,31 @@ set_option maxRecDepth 100000 in
 theorem fixed_and_null : FallibleAndFails andNull andNullEv := by decide
 
 set_option maxRecDepth 100000 in
-/-- `D_ctor_poststate`: `Predicate::new` checks the predicate's kind in the state after the predicate
-    was compiled (`x` already boolean); `type_info` types it in the state before (`x` a string) -/
-theorem witness_ctor_poststate : InfallibleButFails ctorPost ctorPostEv ∧ nanFreeSeq ctorPost T0 = true := by
+/-- `D_ctor_poststate` (remaining): `Abort::new` checks the message in the state after it was compiled
+    (`y` a string); `type_info` types it in the state before (`y` an integer, infallible): at run time the
+    message is `1` and the `abort` raises an error instead -/
+theorem witness_ctor_poststate : InfallibleButFails ctorAbort ctorAbortEv ∧ nanFreeSeq ctorAbort T0 = true := by
   decide
 
 set_option maxRecDepth 100000 in
-/-- **the full-strength statement of C02 is false of the model**: the predicate checked in the wrong
-    state (`D_ctor_poststate`) -/
+/-- fixed (`D_ctor_poststate` at `Predicate::new` / `Not::new` / `Op::new`; d43fc03): in
+    `x = "s"; if { y = x; x = true; y } { 1 } else { 2 }` the predicate was checked as if `x` already were
+    a boolean. The check is now made in the state `type_info` uses, where it fails: the tree is no longer
+    a compiled program (the compiler rejects the source) -/
+theorem fixed_ctor_poststate :
+    InfallibleButFails ctorPost ctorPostEv ∧
+    (typeSeq (.cons (.blk (.cons (.asg (.internal "y" []) (.var "x")) (.cons (.asg (.internal "x" []) (.lit (.bool true))) (.cons (.var "y") .nil)))) .nil)
+      (typeInfo (.asg (.internal "x" []) (.lit (.bytes [115]))) T0).2 {}).1.finish.kind.isBoolean = false ∧
+    Chk.structural ∈ checksSeq ctorPost T0 {} := by
+  decide
+
+set_option maxRecDepth 100000 in
+/-- **the full-strength statement of C02 is false of the model**: a variable first assigned by the
+    right operand of `||` (`D_short_circuit_defines_var`) -/
 theorem not_full : ¬ C02.Full := by
   intro h
-  have hi := h (.blk ctorPost) T0 (by decide)
-    (st ctorPostEv) (conforms_st _ (by decide) (by decide)) (by decide) (by decide)
+  have hi := h (.blk shortVar) T0 (by decide)
+    (st shortVarEv) (conforms_st _ (by decide) (by decide)) (by decide) (by decide)
   revert hi
   decide
 
